@@ -128,3 +128,78 @@ Theorem C05_numbers_reject_bool : forall mn mx fmn fmx b,
   int_validate mn mx (PBool b) = Err EValue /\ float_validate fmn fmx (PBool b) = Err EValue.
 Proof. intros; split; [apply int_rejects_bool|apply float_rejects_bool]. Qed.
 Print Assumptions C05_numbers_reject_bool.
+
+(* ---- FilenameField and UrlField (FileFields.v).  F : fsys is the file system and path algebra (os.path.isabs / join /
+   expanduser / abspath / exists / isdir / isfile), U : uparse is urllib's urlparse: every theorem holds for ALL of them;
+   `abspath_absolute F` = "what os.path.abspath returns is absolute" is the only os.path fact used, and only for idempotence ---- *)
+From Cinco Require Import FileFields FileFieldsLemmas.
+
+Theorem C05_file_validate_exact : forall (orc : oracle) (F : fsys) (req : bool) (o : sopts) (m : emode) (sd : option str) (x v : pyval),
+  file_validate orc F req o m sd x = Ok v <->
+  (exists s : str, str_validate orc req o x = Ok s /\
+     (s = nil /\ v = PStr nil \/
+      s <> nil /\ (exists p : str, resolved F sd s p /\ (exists ex : bool, fs_exists F p = Some ex) /\ mode_holds F m p /\ v = PStr p))).
+Proof. exact file_validate_exact. Qed.
+Print Assumptions C05_file_validate_exact.
+
+Theorem C05_file_validate_sound : forall (orc : oracle) (F : fsys) (req : bool) (o : sopts) (m : emode) (sd : option str) (x v : pyval),
+  file_validate orc F req o m sd x = Ok v -> file_meets F m v.
+Proof. exact file_validate_sound. Qed.
+Print Assumptions C05_file_validate_sound.
+
+(* idempotent when the stored path passes the field's own string pipeline unchanged ... *)
+Theorem C05_file_validate_idem : forall (orc : oracle) (F : fsys) (req : bool) (o : sopts) (m : emode) (sd : option str) (x : pyval) (p : str),
+  abspath_absolute F -> file_validate orc F req o m sd x = Ok (PStr p) -> str_validate orc req o (PStr p) = Ok p ->
+  file_validate orc F req o m sd (PStr p) = Ok (PStr p).
+Proof. exact file_validate_idem. Qed.
+Print Assumptions C05_file_validate_idem.
+
+(* ... which is always so for a field without string options ... *)
+Theorem C05_file_validate_idem_plain : forall (orc : oracle) (F : fsys) (req : bool) (m : emode) (sd : option str) (x : pyval) (p : str),
+  abspath_absolute F -> fs_isabs F nil = Some false -> file_validate orc F req sopts0 m sd x = Ok (PStr p) ->
+  file_validate orc F req sopts0 m sd (PStr p) = Ok (PStr p).
+Proof. exact file_validate_idem_plain. Qed.
+Print Assumptions C05_file_validate_idem_plain.
+
+(* ... and FALSE in general: FilenameField(startdir="/Tmp", transform_case="lower"): "a" -> "/Tmp/a" -> "/tmp/a" *)
+Theorem C05_file_validate_idem_refuted :
+  abspath_absolute refute_fs /\
+  ff_validate no_oracle refute_fs (fun _ => None) refute_field (PStr (sa "a")) = Ok (PStr (sa "/Tmp/a")) /\
+  ff_validate no_oracle refute_fs (fun _ => None) refute_field (PStr (sa "/Tmp/a")) = Ok (PStr (sa "/tmp/a")).
+Proof. exact file_validate_idem_refuted. Qed.
+Print Assumptions C05_file_validate_idem_refuted.
+
+Theorem C05_url_validate_exact : forall (orc : oracle) (U : uparse) (req : bool) (o : sopts) (x v : pyval),
+  url_validate orc U req o x = Ok v <->
+  (exists s sch : str, str_validate orc req o x = Ok s /\ U s = Some (Some sch) /\ sch <> nil /\ v = PStr s).
+Proof. exact url_validate_exact. Qed.
+Print Assumptions C05_url_validate_exact.
+
+Theorem C05_url_validate_idem : forall (orc : oracle) (U : uparse) (req : bool) (o : sopts) (x v : pyval),
+  sopts_F13 o = false -> url_validate orc U req o x = Ok v -> url_validate orc U req o v = Ok v.
+Proof. exact url_validate_idem. Qed.
+Print Assumptions C05_url_validate_idem.
+
+(* both classes through Field.validate (required / None first), and the on-disk round trip (to_basic / to_python are the identity) *)
+Theorem C05_filefields_idem : forall (orc : oracle) (F : fsys) (U : uparse) (f : ffield) (x v : pyval),
+  abspath_absolute F -> ff_validate orc F U f x = Ok v -> ff_stable orc f v -> ff_validate orc F U f v = Ok v.
+Proof. exact ff_validate_idem. Qed.
+Print Assumptions C05_filefields_idem.
+
+Theorem C05_filefields_roundtrip : forall (orc : oracle) (F : fsys) (U : uparse) (f : ffield) (x v : pyval),
+  abspath_absolute F -> ff_validate orc F U f x = Ok v -> ff_stable orc f v ->
+  exists b p : pyval, ff_to_basic f v = Ok b /\ ff_to_python f b = Ok p /\ ff_validate orc F U f p = Ok v.
+Proof. exact ff_roundtrip. Qed.
+Print Assumptions C05_filefields_roundtrip.
+
+(* idempotence of both classes outside the two open findings: known_F56 f = a (non-empty) start directory together with an
+   inherited string option (C05_file_validate_idem_refuted is its witness), ff_F13 f = the F13 region of the string options *)
+Theorem C05_filefields_idem_partial : forall (orc : oracle) (F : fsys) (U : uparse) (f : ffield) (x v : pyval),
+  known_F56 f = false -> ff_F13 f = false -> abspath_absolute F -> fs_isabs F nil = Some false ->
+  ff_validate orc F U f x = Ok v -> ff_validate orc F U f v = Ok v.
+Proof. exact ff_validate_idem_partial. Qed.
+Print Assumptions C05_filefields_idem_partial.
+
+Theorem C05_known_F56_witness : known_F56 refute_field = true.
+Proof. reflexivity. Qed.
+Print Assumptions C05_known_F56_witness.
